@@ -530,10 +530,13 @@ pub struct Sp {
     pub rub: bool,
     pub rank: Rank,
     pub tag: String,
+    /// superset dominance rule: one key, one 0/1 coordinate per vertex (b dominates a iff b contains a and is worth at least as
+    /// much): admissible because the weights are positive.  Together with the content dependent variable order of this model.
+    pub dom: bool,
 }
 impl Sp {
     pub fn new(m: usize, w: Vec<isize>, adj: Vec<u32>, long_arcs: bool, rub: bool, rank: Rank, tag: &str) -> Sp {
-        Sp { m, w, adj, long_arcs, rub, rank, tag: tag.to_string() }
+        Sp { m, w, adj, long_arcs, rub, rank, tag: tag.to_string(), dom: false }
     }
     fn weight(&self, x: u32) -> isize { (0..self.m).filter(|v| x & (1 << v) != 0).map(|v| self.w[v]).sum() }
     fn best(&self, x: u32) -> isize {
@@ -615,7 +618,7 @@ impl Model for Sp {
         let edges: Vec<(usize, usize)> = (0..self.m).flat_map(|u| (u + 1..self.m).filter(move |v| self.adj[u] & (1 << v) != 0).map(move |v| (u, v))).collect();
         json!({"model": "SP", "tag": self.tag, "m": self.m, "weights": self.w, "edges": edges, "long_arcs": self.long_arcs, "rub": self.rub, "rank": format!("{:?}", self.rank), "opt": self.opt()})
     }
-    fn variant(&self) -> Variant { Variant { flat: true, bonus: false, rub: if self.rub { Rub::Exact } else { Rub::None }, dom: Dom::Off, rank: self.rank, revperm: false, la: self.long_arcs } }
+    fn variant(&self) -> Variant { Variant { flat: true, bonus: false, rub: if self.rub { Rub::Exact } else { Rub::None }, dom: if self.dom { Dom::Coord } else { Dom::Off }, rank: self.rank, revperm: false, la: self.long_arcs } }
     fn has_long_arcs(&self) -> bool { self.long_arcs }
     fn depth_embedded(&self) -> bool { false }
     fn opt(&self) -> Option<isize> { Some(self.best(self.full())) }
@@ -688,9 +691,9 @@ impl Model for Sp {
         out.sort_by_key(|x| x.0);
         out
     }
-    fn dom_dims(&self) -> usize { 0 }
-    fn dom_key(&self, _: &St) -> Option<u32> { None }
-    fn dom_coord(&self, _: &St, _: usize) -> isize { 0 }
+    fn dom_dims(&self) -> usize { if self.dom { self.m } else { 0 } }
+    fn dom_key(&self, _: &St) -> Option<u32> { if self.dom { Some(0) } else { None } }
+    fn dom_coord(&self, s: &St, i: usize) -> isize { ((s.x >> i) & 1) as isize }
     fn is_exact_state(&self, _: &St) -> bool { true }
     fn self_check(&self) -> Result<(), String> {
         for v in 0..self.m { if self.adj[v] & (1 << v) != 0 { return Err("self loop".to_string()); } for u in 0..self.m { if (self.adj[v] >> u) & 1 != (self.adj[u] >> v) & 1 { return Err("asymmetric adjacency".to_string()); } } }
